@@ -145,9 +145,9 @@ def gen_configs(pid, tier):
                                     TOuts={"none", "Never"}, CtlOps={"register", "step", "bounce"}, MaxCtl=4,
                                     DetTies=True))]
         if not q:
-            cfgs.append(("gen_clock_t3", sr(Tick=3, Duration=100, Waits={2, 4, 7}, MaxPat=2, Outs={"Never", "Ok"},
+            cfgs.append(("gen_clock_t3", sr(Tick=3, Duration=100, Waits={2, 7}, MaxPat=2, Outs={"Never", "Ok"},
                                             TWaits={1}, TOuts={"none", "Never"},
-                                            CtlOps={"register", "step", "run", "crash", "bounce"}, MaxCtl=5,
+                                            CtlOps={"register", "step", "crash", "bounce"}, MaxCtl=4,
                                             DetTies=True)))
         return cfgs
     if pid == "C04":
@@ -157,15 +157,20 @@ def gen_configs(pid, tier):
                 ("gen_crash_conn_first", sc(Ops=TCP, Targets={1}, Lis=2, MaxOps=4, MaxFaults=1, MaxSteps=4)),
                 # a writer parked for send credit when the reader's host crashes (needs 5 operations)
                 ("gen_crash_writer", sc(Ops={"listen", "accept", "connect", "write"}, Faults={"crash"}, Targets={1},
-                                        MaxOps=5, MaxFaults=1, MaxSteps=6))]
+                                        MaxOps=5, MaxFaults=1, MaxSteps=6)),
+                # the mirror image: the acceptor is the parked writer, the connector holds unread data and crashes
+                ("gen_crash_writer_acc", sc(Ops={"listen", "accept", "connect", "write"}, Faults={"crash"}, Targets={2},
+                                            MaxOps=5, MaxFaults=1, MaxSteps=6))]
         if not q:
             cfgs = [("gen_crash_listener", sc(Ops=TCP, Targets={1}, Lis=1, MaxOps=5, MaxFaults=2, MaxSteps=5)),
                     ("gen_crash_connector", sc(Ops=TCP, Targets={2}, Lis=1, MaxOps=5, MaxFaults=1, MaxSteps=5)),
-                    ("gen_crash_udp", sc(Ops=UDP, Targets={1, 2}, MaxOps=4, MaxFaults=2, MaxSteps=4)),
+                    ("gen_crash_udp", sc(Ops=UDP, Targets={1, 2}, MaxOps=4, MaxFaults=1, MaxSteps=4)),
                     ("gen_crash_conn_first", sc(Ops=TCP, Targets={1, 2}, Lis=2, MaxOps=4, MaxFaults=2, MaxSteps=4)),
                     ("gen_crash_lat2", sc(Ops=TCP, Targets={1}, Lis=1, LatSteps=2, Cap=2, MaxOps=5, MaxFaults=1, MaxSteps=6)),
                     ("gen_crash_writer", sc(Ops={"listen", "accept", "connect", "write"}, Faults={"crash", "bounce"},
-                                            Targets={1}, MaxOps=6, MaxFaults=1, MaxSteps=6))]
+                                            Targets={1}, MaxOps=6, MaxFaults=1, MaxSteps=6)),
+                    ("gen_crash_writer_acc", sc(Ops={"listen", "accept", "connect", "write"}, Faults={"crash", "bounce"},
+                                                Targets={2}, MaxOps=6, MaxFaults=1, MaxSteps=6))]
         return cfgs
     raise ValueError(pid)
 
